@@ -52,47 +52,62 @@ def generate():
                     degraded.append((T, f"payload type {m.group(2)} of {m.group(1)} not understood"))
     idx = {v: i for i, v in enumerate(variants)}
 
-    m = re.search(r"let\s+level_in_range\s*=\s*match\s+value\s*\{", src)
+    # The range test: the first `match` in the file all of whose arms are `<variant pattern> => <boolean condition on the
+    # payload>` (wherever it lives: inline in `try_from` as `let level_in_range = match value {…}`, or in a helper method).
+    # Arm shapes understood: `V => true`, `V(_) => true`, `V(x) => x <= N`, `x < N`, `(A..=B).contains(&x)`, `(A..B).contains(&x)`,
+    # and or-patterns `V(x) | W(x) => …` (the same condition for each alternative).
     errors_out = False
-    if not m:
-        degraded.append((T, "`let level_in_range = match value {` not found"))
-    else:
-        arms_txt = _block(src[m.start():], r"match\s+value\s*\{") or ""
+    found = None
+    for mm in re.finditer(r"match\s+[\*&]?\s*[\w\.]+\s*\{", src):
+        arms_txt = _block(src[mm.start():], r"match\s+[\*&]?\s*[\w\.]+\s*\{") or ""
         arms_txt = re.sub(r"//[^\n]*", "", arms_txt)
-        arms = [a.strip() for a in arms_txt.split(",\n") if a.strip()]
-        arms = [a.rstrip(",").strip() for a in arms]
+        arms = [a.strip().rstrip(",").strip() for a in re.split(r",\s*\n", arms_txt) if a.strip()]
+        acc, unch, ok = {}, [], bool(arms)
         for arm in arms:
-            am = re.fullmatch(r"(?:CompressionWithLevel|Self)::(\w+)(?:\(\s*(\w+)\s*\))?\s*=>\s*(.+)", arm, re.S)
+            am = re.fullmatch(r"(.+?)\s*=>\s*(.+)", arm, re.S)
             if not am:
-                degraded.append((T, f"arm not understood: {arm!r}"))
-                continue
-            v, var, cond = am.group(1), am.group(2), am.group(3).strip()
-            if v not in idx:
-                degraded.append((T, f"arm for unknown variant {v}"))
-                continue
-            if cond == "true":
-                unchecked.append(v)
-                continue
-            if v not in argtype or not var or var == "_":
-                degraded.append((T, f"condition on {v} without a bound payload: {cond!r}"))
-                continue
-            tlo, thi = argtype[v]
-            c = re.fullmatch(rf"{var}\s*<=\s*(-?[\d_]+)", cond)
-            if c:
-                accepted[v] = (tlo, min(thi, _int(c.group(1))))
-                continue
-            c = re.fullmatch(rf"\(\s*(-?[\d_]+)\s*\.\.=\s*(-?[\d_]+)\s*\)\s*\.contains\(\s*&{var}\s*\)", cond)
-            if c:
-                accepted[v] = (max(tlo, _int(c.group(1))), min(thi, _int(c.group(2))))
-                continue
-            degraded.append((T, f"condition of {v} not understood: {cond!r}"))
-        # what happens when the test fails
-        after = src[m.end():]
-        nxt = re.search(r"\n\s*match\s+value\s*\{", after)
-        between = after[:nxt.start()] if nxt else after[:600]
-        errors_out = bool(re.search(r"if\s+!\s*level_in_range\s*\{\s*return\s+Err\(", between))
+                ok = False
+                break
+            cond = am.group(2).strip()
+            for alt in [x.strip() for x in am.group(1).split("|")]:
+                pm = re.fullmatch(r"(?:CompressionWithLevel|Self)::(\w+)(?:\(\s*(\w+)\s*\))?", alt)
+                if not pm or pm.group(1) not in idx:
+                    ok = False
+                    break
+                v, var = pm.group(1), pm.group(2)
+                if cond == "true":
+                    unch.append(v)
+                    continue
+                if v not in argtype or not var or var == "_":
+                    ok = False
+                    break
+                tlo, thi = argtype[v]
+                c = re.fullmatch(rf"{var}\s*(<=|<)\s*(-?[\d_]+)", cond)
+                if c:
+                    acc[v] = (tlo, min(thi, _int(c.group(2)) - (1 if c.group(1) == "<" else 0)))
+                    continue
+                c = re.fullmatch(rf"\(\s*(-?[\d_]+)\s*(\.\.=|\.\.)\s*(-?[\d_]+)\s*\)\s*\.contains\(\s*&{var}\s*\)", cond)
+                if c:
+                    acc[v] = (max(tlo, _int(c.group(1))), min(thi, _int(c.group(3)) - (1 if c.group(2) == ".." else 0)))
+                    continue
+                ok = False
+                break
+            if not ok:
+                break
+        if ok and acc and set(acc) | set(unch) == set(variants):
+            found = (mm, acc, unch)
+            break
+    if not found:
+        degraded.append((T, "no `match` whose arms give a level range for every variant of CompressionWithLevel"))
+    else:
+        mm, acc, unch = found
+        accepted.update(acc)
+        unchecked.extend(unch)
+        # what happens when the test fails: within the next 700 characters an `Err(` is produced and there is no panic / clamp
+        after = src[mm.end():mm.end() + 900]
+        errors_out = bool(re.search(r"Err\(", after)) and not re.search(r"panic!|unwrap\(\)|\.clamp\(|\.min\(|\.max\(", after.split("match", 1)[0] if "match" in after else after)
         if not errors_out:
-            degraded.append((T, "`if !level_in_range { return Err(` not found after the range test"))
+            degraded.append((T, "no `Err(` path found after the range test"))
     for v in variants:
         if v not in accepted and v not in unchecked:
             degraded.append((T, f"no range arm scraped for {v}"))
